@@ -7,6 +7,17 @@ From Coq Require Import ZArith NArith List Bool Lia Arith.
 Import ListNotations.
 Require Import SR.Base.Res SR.Spec.JsonDoc SR.Spec.JsonDocOdo SR.Gen.SchemaMakerParams SR.Model.SchemaMaker
   SR.Proofs.SchemaMakerP.
+(* The definitions of this development that occur in theorem statements (Props/) live in Spec/SchemaMakerOdoWitness.v (audit item G1).
+   The abbreviations keep the qualified names SchemaMakerOdoP.name of other files resolving; they are parsing-only aliases. *)
+Require Export SR.Spec.SchemaMakerOdoWitness.
+Notation mk_tab := SR.Spec.SchemaMakerOdoWitness.mk_tab (only parsing).
+Notation odo_backward := SR.Spec.SchemaMakerOdoWitness.odo_backward (only parsing).
+Notation odo_forward := SR.Spec.SchemaMakerOdoWitness.odo_forward (only parsing).
+Notation odo_inside := SR.Spec.SchemaMakerOdoWitness.odo_inside (only parsing).
+Notation odo_self := SR.Spec.SchemaMakerOdoWitness.odo_self (only parsing).
+Notation odo_ancestor := SR.Spec.SchemaMakerOdoWitness.odo_ancestor (only parsing).
+Notation odo_dangling := SR.Spec.SchemaMakerOdoWitness.odo_dangling (only parsing).
+Notation odo_mixed := SR.Spec.SchemaMakerOdoWitness.odo_mixed (only parsing).
 
 (* ------------------------------------------------------------------ anchor names of a node list *)
 
@@ -991,42 +1002,6 @@ Proof.
 Qed.
 
 (* ------------------------------------------------------------------ witnesses and examples *)
-
-Definition mk_tab (anchor : option str) (counter : str) (x : js) : js := mk_arr anchor (Some (hash :: counter)) x.
-
-(* {a: integer $anchor X, v: array of string depending on #X}: the counter stands before the table *)
-Definition odo_backward : js :=
-  mk_obj None (PCons ka (mk_atom s_integer (Some nX) None)
-              (PCons kv (mk_tab None nX (mk_atom s_string None None)) PNil)).
-
-(* {v: array of string depending on #X, a: integer $anchor X}: the counter stands after the table *)
-Definition odo_forward : js :=
-  mk_obj None (PCons kv (mk_tab None nX (mk_atom s_string None None))
-              (PCons ka (mk_atom s_integer (Some nX) None) PNil)).
-
-(* array of (integer $anchor X) depending on #X: the counter is the element *)
-Definition odo_inside : js := mk_tab None nX (mk_atom s_integer (Some nX) None).
-
-(* array $anchor X depending on #X: the table is its own counter *)
-Definition odo_self : js := mk_tab (Some nX) nX (mk_atom s_integer None None).
-
-(* object $anchor X {v: array depending on #X}: the counter encloses the table *)
-Definition odo_ancestor : js :=
-  mk_obj (Some nX) (PCons kv (mk_tab None nX (mk_atom s_string None None)) PNil).
-
-(* {a: integer $anchor X, v: array depending on #Y}: no sub-schema bears Y *)
-Definition odo_dangling : js :=
-  mk_obj None (PCons ka (mk_atom s_integer (Some nX) None)
-              (PCons kv (mk_tab None nY (mk_atom s_string None None)) PNil)).
-
-(* counter first, a table of references to a group declared last, a second table inside the group:
-   {a: integer $anchor X, v: array of $ref #Y depending on #X,
-    w: object $anchor Y {t: array of null depending on #X}} *)
-Definition odo_mixed : js :=
-  mk_obj None
-    (PCons ka (mk_atom s_integer (Some nX) None)
-    (PCons kv (mk_tab None nX (mk_ref nY None))
-    (PCons kw (mk_obj (Some nY) (PCons kt (mk_tab None nX (mk_atom s_null None None)) PNil)) PNil))).
 
 (* the statement one would like: whatever the place of the counter, a document without dangling
    references loads *)
